@@ -1004,7 +1004,7 @@ class C01(PropBase):
                 "modules: c01_memory_range_sound; MinidumpThread::last_error address arithmetic: c01_last_error_in_bounds; get_crash_address: c01_crash_address_total; "
                 "ELF debug id padding: c01_elf_debug_id_reads; the four compared query fields: c01_crash_queries_total). A source scan lists every index / unwrap / "
                 "panic macro / unchecked arithmetic / division / integer cast / allocation / copy / unsafe / loop / inequality / guard site of minidump/src and "
-                "minidump-common/src (971 sites in 322 groups); c01_sites_pinned proves the scanned list equal (count and digest per function and kind) to the reviewed "
+                "minidump-common/src (1 138 sites in 440 groups; kinds incl. panicking calls such as Range::new, self-recursion, equality guards and early exits); c01_sites_pinned proves the scanned list equal (count and digest per function and kind) to the reviewed "
                 "table C01/Sites.v and c01_sites_classified that every group is covered by a named theorem, safe for a stated reason, or searched by a named harness step - "
                 "a new or edited site, or a removed guard, breaks that obligation before any failing input is needed.",
         "note": "Trusted: Coq kernel; hand-written model (correspondence-checked on every run, not verified against the Rust source); scroll's Pread "
